@@ -441,3 +441,15 @@ def _register_shared():
 
 
 # _register_shared() is called by the driver after this module is fully imported (no import cycles)
+
+
+# the estimators are applied to whatever container is sampled, also to a bin or patch selection of it: the selection keeps counts and
+# both sums of weights of exactly the selected bins / patches (C17 unit)
+def _register_shared_round9():
+    from . import C17 as _C17
+    unit(P, "containers._make_slice", fuc=["yaw.correlation.paircounts:PatchedCounts._make_bin_slice", "yaw.correlation.paircounts:PatchedSumWeights._make_bin_slice",
+                                           "yaw.correlation.paircounts:PatchedCounts._make_patch_slice", "yaw.correlation.paircounts:PatchedSumWeights._make_patch_slice"],
+         cases=[dict(which=w, kind=k, cont=c) for w in ("bin", "patch") for k in ("int", "slice") for c in ("pc", "sw")])(_C17.u_slices)
+
+
+# _register_shared_round9() is called by the driver after this module is fully imported (no import cycles)
